@@ -12,13 +12,27 @@
      literals down to -2^63 as that i64, below that as the negated float;
    * `C05_never_inf`, `C05_out_of_range`: the conversion never returns infinity or NaN; the only error is
      NumberOutOfRange.
-  Not yet covered by theorems: the fraction/exponent scanners (`parseDecimal`, `parseExponent`), the
-  long-integer path and the 2^-50 accuracy bound outside the exact region (checked by the oracle).  Proved here, against the table regenerated from the code on this run: every `POW10`
+  Decimal literals (LexprModel/Proofs/Decimals.lean, imported here): `C05_scan_parts` — the scanners
+  (`parseNumLiteral`, `parseDecimal`, `parseExponent`, trailing-zero stripping) deliver exactly the
+  significand/exponent pair of the written literal; `C05_rnDec_eq(_all)`; `C05_decimal_exact` — in the
+  default build a literal whose digits fit 2^53 with |exponent| ≤ 22 reads as the correctly rounded
+  double of its exact value; `C05_decimal_exact_nofast` — without fast-float-parsing every literal with
+  at most 19 significant digits (sig ≤ u64::MAX) does; `C05_decimal_token` — as a whole token;
+  `C05_out_of_range_literal`, `C05_literal_finite_or_range`, `C05_any_literal_finite_or_range` — every
+  literal of any length reads as a finite double or is rejected as NumberOutOfRange at its end, never
+  infinity, NaN, panic or fuel exhaustion; `atomRT_float` — the printer's shortest form of a double
+  (ryu as a specified parameter, `RyuSpec`) reads back bit-exactly in the exactness window (default
+  build) or always (other build); witnesses `atomRT_float_window_needed` (1e-23 is one ulp off in
+  the default build, allowed by the property) and `C05_out_of_range_fast_counterexample`.
+  Not covered by a theorem: the 2^-50 bound outside the exact region in the default build and
+  written exponents beyond i32 (both carried by the exact-value oracle and the correspondence).
+  Proved here, against the table regenerated from the code on this run: every `POW10`
   entry is the correctly rounded power of ten and the first 23 are exact (the premise of the
   exactness region |exponent| ≤ 22); and basic facts of the rounding function.
 -/
 import LexprModel.TablesCheck
 import LexprModel.Proofs.Numbers
+import LexprModel.Proofs.Decimals
 namespace Lexpr
 namespace F64
 
